@@ -328,7 +328,7 @@ def main():
         first_failed = set(still)
         tried = []
         for sd in (7, 1234, 99):
-            r2 = core.run_verus(path, rlimit=rlimit, extra=list(meta.get('verus_args', ())) + ['--smt-option', 'smt.random_seed=%d' % sd])
+            r2 = core.run_verus(path, rlimit=rlimit, extra=list(meta.get('verus_args', ())) + ['--smt-option', 'smt.random_seed=%d' % sd], timeout=max(180, 4 * res['wall']))
             if r2['json'] is None or 'verification-results' not in (r2['json'] or {}):
                 continue
             tried.append(sd)
